@@ -220,33 +220,69 @@ class Encoding(object):
 
 # --- excluded classes -------------------------------------------------------------------------
 def class_predicates(enc):
-    """key -> (kind, description, predicate(k) over enc.d for a payload of k bytes)."""
+    """key -> (kind, description, predicate(mode, k) over enc.d for a payload of k bytes).
+    kind 'known'  = genuine defect recorded in known_findings.json (excluded only while listed);
+    kind 'benign' = the matcher dispatches although no signature is complete, but the responder
+                    lemma named in the description shows that nothing is answered."""
     z3 = enc.z3
     d = enc.d
     LITSTART = [0x00] + [ord(c) for c in "GPHDCOTS"]
 
-    def sig_complete(name, k):
+    def sig(name):
         for n, p, idd, aend in SIGNATURES:
             if n == name:
-                if len(p) > k:
-                    return z3.BoolVal(False)
-                return z3.And([d[j] == p[j] for j in range(len(p)) if p[j] is not None])
+                return p
         raise KeyError(name)
 
+    def sig_complete(name, k):
+        p = sig(name)
+        if len(p) > k:
+            return z3.BoolVal(False)
+        return z3.And([d[j] == p[j] for j in range(len(p)) if p[j] is not None])
+
+    def all_but_last(name, mode, k):
+        p = sig(name)
+        if mode != "datagram" or k != len(p) - 1:
+            return z3.BoolVal(False)
+        return z3.And([d[j] == p[j] for j in range(len(p) - 1) if p[j] is not None])
+
     cls = {}
-    # known findings (shadowing: a wildcard position of one signature is a literal of another)
-    cls["c10.shadow.stun_magic.byte2_is_00"] = ("known", "STUN binding request with magic cookie and message length < 256 is not recognised",
-                                               lambda k: z3.And(sig_complete("stun:magic", k), d[2] == 0))
-    cls["c10.shadow.rpc_tcp.byte4_is_00"] = ("known", "ONC-RPC/TCP call whose XID high byte is 0 is not recognised",
-                                            lambda k: z3.And(sig_complete("rpc:tcp", k), d[4] == 0))
-    cls["c10.shadow.rpc_tcp.byte0_is_literal_start"] = ("known", "ONC-RPC/TCP call whose record mark starts with 00/G/P/H/D/C/O/T/S is not recognised",
-                                                       lambda k: z3.And(sig_complete("rpc:tcp", k), z3.Or([d[0] == c for c in LITSTART])))
-    cls["c10.shadow.rpc_udp.byte0_is_literal_start"] = ("known", "ONC-RPC/UDP call whose XID starts with 00/G/P/H/D/C/O/T/S is not recognised",
-                                                       lambda k: z3.And(sig_complete("rpc:udp", k), z3.Or([d[0] == c for c in LITSTART])))
+    cls["c10.shadow.stun_magic.byte2_is_00"] = ("known", "STUN binding request with magic cookie and message length < 256 is not recognised by the matcher (byte 2 = 00 follows the literal path of the END-anchored STUN signatures)",
+                                               lambda mode, k: z3.And(sig_complete("stun:magic", k), d[2] == 0))
+    cls["c10.shadow.rpc_tcp.byte4_is_00"] = ("known", "ONC-RPC/TCP call whose XID high byte is 00 is not recognised by the matcher",
+                                            lambda mode, k: z3.And(sig_complete("rpc:tcp", k), d[4] == 0))
+    cls["c10.shadow.rpc_tcp.byte0_is_literal_start"] = ("known", "ONC-RPC/TCP call whose record mark starts with 00/G/P/H/D/C/O/T/S is not recognised by the matcher",
+                                                       lambda mode, k: z3.And(sig_complete("rpc:tcp", k), z3.Or([d[0] == c for c in LITSTART])))
+    cls["c10.shadow.rpc_udp.byte0_is_literal_start"] = ("known", "ONC-RPC/UDP call whose XID starts with 00/G/P/H/D/C/O/T/S is not recognised by the matcher",
+                                                       lambda mode, k: z3.And(sig_complete("rpc:udp", k), z3.Or([d[0] == c for c in LITSTART])))
+    cls["benign.rpc_udp.end_as_last_wildcard"] = ("benign", "23-byte datagram matching all but the last (wildcard) position of the ONC-RPC/UDP signature is dispatched at end of input; rpc::repl_udp stays silent below 40 bytes (lemma c10_rpc_short_silent)",
+                                                 lambda mode, k: all_but_last("rpc:udp", mode, k))
+    cls["benign.rpc_tcp.end_as_last_wildcard"] = ("benign", "27-byte datagram matching all but the last (wildcard) position of the ONC-RPC/TCP signature is dispatched at end of input; rpc::repl_tcp stays silent below 44 bytes (lemma c10_rpc_short_silent)",
+                                                 lambda mode, k: all_but_last("rpc:tcp", mode, k))
     return cls
 
 
-def run(tables_path, budget_s=600, lengths=None, verbose=True):
+def dead_rows(tb):
+    """rows from which no match row is reachable by any symbol sequence (plain graph closure
+    over the concrete table; used only to state the length lemma that z3 then checks)."""
+    T, RS, ML = tb["T"], tb["RS"], tb["ML"]
+    nrows = len(tb["MF"]) // 4
+    ncols = 1 << RS
+    syms = sorted(set(tb["C"][:256]))          # symbols that payload bytes can produce
+    alive = set(r for r in range(nrows) if r >= ML)
+    changed = True
+    while changed:
+        changed = False
+        for r in range(nrows):
+            if r in alive or (r << RS) + ncols > len(T):
+                continue
+            if any(T[(r << RS) + c] in alive for c in syms):
+                alive.add(r)
+                changed = True
+    return [r for r in range(nrows) if r not in alive and (r << RS) + ncols <= len(T)]
+
+
+def run(tables_path, budget_s=600, lengths=None, verbose=True, known_keys=None):
     import z3
     tb = load_tables(tables_path)
     t0 = time.time()
@@ -263,7 +299,9 @@ def run(tables_path, budget_s=600, lengths=None, verbose=True):
             s.set("timeout", int(budget_s * 1000 / 4))
             s.add(real[k] != ref[k])
             for key, (kind, desc, pred) in classes.items():
-                s.add(z3.Not(pred(k)))
+                if kind == "known" and known_keys is not None and key not in known_keys:
+                    continue   # not (or no longer) listed: nothing is suppressed
+                s.add(z3.Not(pred(mode, k)))
             r = s.check()
             dt = time.time() - t1
             q = {"mode": mode, "length": k, "result": str(r), "solver_s": round(dt, 2)}
@@ -286,10 +324,10 @@ def run(tables_path, budget_s=600, lengths=None, verbose=True):
     for key, (kind, desc, pred) in classes.items():
         hit = None
         for mode, real, ref in (("stream", enc.stream_id, enc.ref_stream), ("datagram", enc.dgram_id, enc.ref_dgram)):
-            for k in (8, 24, 28, 29):
+            for k in (8, 23, 24, 27, 28, 29):
                 s = enc.solver()
                 s.add(real[k] != ref[k])
-                s.add(pred(k))
+                s.add(pred(mode, k))
                 r = s.check()
                 if r == z3.sat:
                     hit = {"mode": mode, "length": k, "witness": enc.model_bytes(s.model(), k).hex()}
@@ -298,11 +336,49 @@ def run(tables_path, budget_s=600, lengths=None, verbose=True):
             if hit:
                 break
         out["known_hit"][key] = hit
+    # length lemma: after N bytes without a match the matcher sits in a row from which no match
+    # is reachable any more, so N bytes decide payloads of every length
+    dead = dead_rows(tb)
+    s = enc.solver()
+    s.add(z3.Not(enc.done_at[N]))
+    s.add(z3.And([enc.rows_at[N] != r for r in dead]))
+    t1 = time.time()
+    r = s.check()
+    out["length_lemma"] = {"dead_rows": dead, "result": str(r), "solver_s": round(time.time() - t1, 2)}
+    if r == z3.sat:
+        out["inconclusive"].append({"reason": "length lemma fails: a match is still reachable after %d bytes" % N,
+                                    "witness": enc.model_bytes(s.model(), N).hex()})
+    elif r != z3.unsat:
+        out["inconclusive"].append({"reason": "length lemma undetermined"})
+    # ... and from the rows reachable after >= N unmatched bytes the END symbol matches nothing
+    # (level-set scan of the concrete table, cross-checked by z3 at depth N above)
+    T, C, MF, RS, ML = tb["T"], tb["C"], tb["MF"], tb["RS"], tb["ML"]
+    syms = sorted(set(C[:256]))
+    level = {0}
+    for _ in range(N):
+        level = set(T[(r << RS) + c] for r in level for c in syms if r < ML)
+        level = set(r for r in level if r < ML)
+    closure = set(level)
+    frontier = set(level)
+    while frontier:
+        nxt = set(T[(r << RS) + c] for r in frontier for c in syms) - closure
+        closure |= nxt
+        frontier = nxt
+    end_hits = [r for r in closure if r >= ML or MF[4 * T[(r << RS) + C[257]]] != 0]
+    out["length_lemma"]["rows_after_N_bytes"] = sorted(closure)
+    out["length_lemma"]["end_matches_after_N_bytes"] = end_hits
+    if end_hits:
+        out["inconclusive"].append({"reason": "length lemma fails: END still matches after %d bytes from rows %s" % (N, end_hits)})
+    out["classes"] = {k: {"kind": v[0], "what": v[1]} for k, v in classes.items()}
     out["total_s"] = round(time.time() - t0, 1)
     return out
 
 
 if __name__ == "__main__":
+    kk = None
+    if len(sys.argv) > 4:
+        kk = set(x for x in sys.argv[4].split(",") if x)
     res = run(sys.argv[1], budget_s=float(sys.argv[2]) if len(sys.argv) > 2 else 600,
-              lengths=[int(x) for x in sys.argv[3].split(",")] if len(sys.argv) > 3 else None)
+              lengths=[int(x) for x in sys.argv[3].split(",")] if len(sys.argv) > 3 and sys.argv[3] != "all" else None,
+              known_keys=kk)
     print(json.dumps(res, indent=1))
